@@ -211,6 +211,9 @@ func ReadStream(r io.Reader, size int64, cd []byte) (*Directory, error) {
 // given index. The contents and central directory are written to separate
 // writers, which may be the same writer.
 func (d *Directory) Truncate(n int, body, dir io.Writer) error {
+	if n < 0 || n >= len(d.File) {
+		return errors.New("zip file index out of range")
+	}
 	if body != nil {
 		for i := 0; i < n; i++ {
 			f := d.File[i]
